@@ -33,17 +33,36 @@ Emit(c, dt) ==
   ELSE JsonSerialize(IOEnv.EMIT_DIR \o "/" \o c \o "_" \o dt \o ".json",
                      SetToSeq(Cells(c, dt)))
 
-Init == stage = 0 /\ cell \in {[c |-> c, dt |-> dt, vc |-> "", v |-> NoV] :
+(* array cells: stage 2; cell.items is the item sequence *)
+ArrCells(c, dt) ==
+  IF c \in ArrContainers /\ dt \in DeclTypes
+  THEN {[c |-> c, dt |-> dt, items |-> s] : s \in ArrShapes(dt)}
+  ELSE {}
+EmitArr(c, dt) ==
+  IF "EMIT_DIR" \notin DOMAIN IOEnv THEN TRUE
+  ELSE IF IOEnv.EMIT_DIR = "" \/ ArrCells(c, dt) = {} THEN TRUE
+  ELSE JsonSerialize(IOEnv.EMIT_DIR \o "/arr_" \o c \o "_" \o dt \o ".json",
+                     SetToSeq(ArrCells(c, dt)))
+
+Init == stage = 0 /\ cell \in {[c |-> c, dt |-> dt, vc |-> "", v |-> NoV,
+                                  items |-> <<>>] :
                                  <<c, dt>> \in Containers \X Types}
 Next == /\ stage = 0
         /\ Emit(cell.c, cell.dt)
-        /\ stage' = 1
-        /\ cell' \in Cells(cell.c, cell.dt)
+        /\ EmitArr(cell.c, cell.dt)
+        /\ \/ /\ stage' = 1
+              /\ cell' \in {x @@ [items |-> <<>>] : x \in Cells(cell.c, cell.dt)}
+           \/ /\ stage' = 2
+              /\ cell' \in {x @@ [vc |-> "arr", v |-> NoV] :
+                              x \in ArrCells(cell.c, cell.dt)}
 Spec == Init /\ [][Next]_vars
 
 ImplWithinReq ==
   stage = 1 =>
     StoreFails(ImplEvent(cell.c, cell.dt, cell.vc, cell.v)) = {}
+
+ArrImplWithinReq ==
+  stage = 2 => ArrFails(ImplArrEvent(cell.c, cell.dt, cell.items)) = {}
 
 (* some sanity about the number model *)
 ASSUME \A t \in IntTypes : Accept(t, MinOf[t]) /\ Accept(t, MaxOf[t])
